@@ -56,7 +56,8 @@ def u(node):
 # every source function whose control flow is regenerated on each run (coverage audit; see tools/coverage_map.py)
 TRANSLATED = [
     'pyramid/view.py:_find_views', 'pyramid/view.py:_call_view',
-    'pyramid/config/views.py:MultiView.get_views', 'pyramid/config/views.py:MultiView.match',
+    'pyramid/config/predicates.py:sort_accept_offers', 'pyramid/config/predicates.py:sort_accept_offers.find_order_index',
+    'pyramid/config/predicates.py:sort_accept_offers.offer_sort_key', 'pyramid/config/views.py:attr_wrapped_view', 'pyramid/config/views.py:MultiView.add', 'pyramid/config/views.py:MultiView.get_views', 'pyramid/config/views.py:MultiView.match',
     'pyramid/config/views.py:MultiView.__call__', 'pyramid/config/views.py:predicated_view',
     'pyramid/config/views.py:predicated_view.predicate_wrapper', 'pyramid/config/views.py:predicated_view.checker',
     'pyramid/config/predicates.py:PredicateList.make',
@@ -86,7 +87,7 @@ BASE_COQ = {'bool': 'bool', 'text': 'text', 'Z': 'Z', 'tag': 'N', 'iface': 'N', 
             'comp': 'component', 'result': 'result', 'pred': 'pred', 'offer': 'offer', 'vtype': 'vtype', 'unit': 'unit',
             'kvo': 'text * option text', 'kv': 'text * text', 'ifpair': 'N * N', 'offerq': 'offer', 'nval': 'bool * pval',
             'pval': 'pval', 'made': 'made', 'request': 'request', 'namefac': 'text', 'call': 'request -> option N', 'loc': 'text * list N',
-            'key2': 'Z * Z', 'kwargs': 'kwargs', 'rawvals': 'list (bool * pval)', 'digest': 'text', 'triple': 'Z * list pred * text', 'hdr3': 'text * option text', 'hdr3t': 'text * option text', 'split2': 'option (text * text)', 'regex': 'text'}
+            'key2': 'Z * Z', 'kwargs': 'kwargs', 'rawvals': 'list (bool * pval)', 'digest': 'text', 'triple': 'Z * list pred * text', 'hdr3': 'text * option text', 'hdr3t': 'text * option text', 'media': 'list (text * list entry)', 'mview': 'mview', 'split2': 'option (text * text)', 'regex': 'text'}
 
 
 def coqty(t):
@@ -352,7 +353,9 @@ ATTR = {
     ('mv', 'name'): (lambda o: None, ERASED),
     ('nval', 'value'): (lambda o: A('snd', [o]), 'pval'),        # not_(value).value
     ('plist', 'sorter'): (lambda o: None, 'sorter'),
-    ('info', 'predicates'): (lambda o: A('r_preds', [o]), LIST('pred')),   # ViewDeriverInfo.predicates of the registration
+    ('info', 'predicates'): (lambda o: A('r_preds', [o]), LIST('pred')),
+    ('info', 'options'): (lambda o: o, 'options'),
+    ('parsed', 'params'): (lambda o: A('o_params', [o]), 'bool'),   # Accept.parse_offer(v).params is non-empty (oracle field)   # ViewDeriverInfo.predicates of the registration
 }
 
 
@@ -390,6 +393,7 @@ class FnTranslator:
             env[a.kwarg.arg] = spec['kwarg']
         if spec.get('closure'):
             env.update(spec['closure'](self.outer))
+        env.update(spec.get('init_env', {}))
         for n in ast.walk(fn):
             if isinstance(n, (ast.Global, ast.Nonlocal, ast.Lambda, ast.ListComp, ast.SetComp, ast.DictComp,
                               ast.NamedExpr, ast.Await, ast.Yield, ast.YieldFrom, ast.While, ast.AsyncFunctionDef,
@@ -405,6 +409,8 @@ class FnTranslator:
                 return spec['end']
             raise Problem('control can reach the end of the function without a return')
         t = self.block(list(fn.body), env, k_end, None)
+        if spec.get('nested_attrs') and getattr(self, 'seen_attrs', set()) != set(spec['nested_attrs']):
+            raise Problem('attributes %s are not all set on the wrapper' % sorted(spec['nested_attrs']))
         return simplify(t, {})
 
     # ------------------------------------------------------------ statements
@@ -534,6 +540,8 @@ class FnTranslator:
 
     def ret(self, s, env):
         if s.value is None:
+            if 'end_fn' in self.spec and self.spec.get('mutself'):
+                return self.spec['end_fn'](env)          # `return` of a method whose result is the final state of self
             raise Problem('bare return')
         conv = self.spec['ret_conv']
         if isinstance(s.value, ast.Name) and s.value.id in self.nested and 'ret_nested' in self.spec:
@@ -585,6 +593,8 @@ class FnTranslator:
             if ty == NONE:
                 chosen = body if is_none else orelse
                 return self.block(chosen, env, k_next, jumps)
+            if ty == NONE + '-never':                   # a parameter the callers never leave None (table: never_none)
+                return self.block(orelse if is_none else body, env, k_next, jumps)
             binder = self.fresh('o_' + (name or 'v'))
             env_some = dict(env)
             if name is not None:
@@ -604,6 +614,8 @@ class FnTranslator:
         if isinstance(test, ast.Compare) and len(test.ops) == 1 and isinstance(test.ops[0], (ast.Is, ast.IsNot)) \
                 and isinstance(test.comparators[0], ast.Constant) and test.comparators[0].value is None:
             obj, ty = self.expr(test.left, env)
+            if ty == 'text' and isinstance(test.left, ast.Name) and test.left.id in self.spec.get('never_none', ()):
+                return test.left.id, obj, NONE + '-never', isinstance(test.ops[0], ast.Is)
             if ty == NONE or ty.startswith('opt:'):
                 name = test.left.id if isinstance(test.left, ast.Name) else None
                 return name, obj, ty, isinstance(test.ops[0], ast.Is)
@@ -631,6 +643,12 @@ class FnTranslator:
                   and s.body[0].targets[0].id == t.left.id and u(s.body[0].value) == want)
             if not ok:
                 raise Problem('default of %s: expected `%s = %s`: %s' % (t.left.id, t.left.id, want, u(s).split('\n')[0]))
+            return env
+        # IDIOM  if S: S = [v for _, v in S.sorted()]   for a sorter the model already holds as its sorted values (or None)
+        if isinstance(t, ast.Name) and t.id in env and env[t.id][1] == OPT(LIST('text')) and self.spec.get('sorter_params'):
+            want = 'if {0}:\n    {0} = [v for _, v in {0}.sorted()]'.format(t.id)
+            if u(s) != want:
+                raise Problem('sorter idiom with an unexpected shape: %s' % u(s).split('\n')[0])
             return env
         # IDIOM  if not isinstance(vals, predvalseq): vals = (vals,)   /  if not is_nonstr_iter(h): h = [h]
         if isinstance(t, ast.UnaryOp) and isinstance(t.op, ast.Not) and isinstance(t.operand, ast.Call) \
@@ -697,13 +715,66 @@ class FnTranslator:
             raise Problem('chained assignment: %s' % u(s))
         tg = s.targets[0]
         if isinstance(tg, ast.Attribute) and isinstance(tg.value, ast.Name) and tg.value.id in self.nested:
+            want = self.spec.get('nested_attrs')
+            if want is not None and tg.attr in want:    # the attribute must carry exactly this value of the registration
+                obj, ty = self.term(s.value, env)
+                shown = self.origin.get(s.value.id) if isinstance(s.value, ast.Name) else (render(obj, 0) if obj is not None else None)
+                if shown != want[tg.attr]:
+                    raise Problem('%s.%s is set to %s, expected %s' % (tg.value.id, tg.attr, u(s.value), want[tg.attr]))
+                self.seen_attrs = getattr(self, 'seen_attrs', set()) | {tg.attr}
             return env                                  # attribute set on a nested function object (see NOTES: __predicated__)
         if isinstance(tg, ast.Tuple) and isinstance(s.value, ast.Tuple) and len(tg.elts) == len(s.value.elts) \
                 and all(isinstance(e, ast.Name) for e in tg.elts):
             vals = [self.expr(v, env) for v in s.value.elts]
             env = dict(env)
+            self.origin = dict(self.origin)
             for e, v in zip(tg.elts, vals):
                 env[e.id] = v
+                self.origin[e.id] = render(v[0], 0) if isinstance(v[0], Term) else None    # what the name was last assigned
+            return env
+        if self.spec.get('mutself') and isinstance(tg, ast.Subscript):
+            # l[i] = e on a list field of self, or on a local that aliases an entry of a dict field of self
+            io, it = self.term(tg.slice, env)
+            vo, vt = self.as_entry(self.expr(s.value, env), s)
+            if it != 'Z':
+                raise Problem('subscript store with a %s index: %s' % (it, u(s)))
+            env = dict(env)
+            if isinstance(tg.value, ast.Attribute) and isinstance(tg.value.value, ast.Name) \
+                    and env.get(tg.value.value.id, (None, ''))[1] == 'mutself' and 'self.' + tg.value.attr in env \
+                    and env['self.' + tg.value.attr][1] == LIST(vt):
+                key = 'self.' + tg.value.attr
+                env[key] = (A('list_set', [io, vo, env[key][0]]), env[key][1])
+                return env
+            if isinstance(tg.value, ast.Name) and tg.value.id in self.aliases and env[tg.value.id][1] == LIST(vt):
+                return self.alias_write(env, tg.value.id, A('list_set', [io, vo, env[tg.value.id][0]]))
+            raise Problem('subscript store outside the table: %s' % u(s))
+        if self.spec.get('mutself') and isinstance(tg, ast.Attribute) and isinstance(tg.value, ast.Name) \
+                and env.get(tg.value.id, (None, ''))[1] == 'mutself':
+            obj, ty = self.term(s.value, env)
+            key = 'self.' + tg.attr
+            if key not in env or env[key][1] != ty.replace('own:', ''):
+                raise Problem('assignment to self.%s of a %s: %s' % (tg.attr, ty, u(s)))
+            env = dict(env)
+            env[key] = (obj, env[key][1])
+            return env
+        if self.spec.get('mutself') and isinstance(tg, ast.Name) and isinstance(s.value, ast.Call) \
+                and isinstance(s.value.func, ast.Attribute) and s.value.func.attr == 'setdefault':
+            # x = self.d.setdefault(k, []): x ALIASES the list stored under k (inserted empty when absent)
+            c = s.value
+            do, dt = self.expr(c.func.value, env)
+            if dt != 'media' or len(c.args) != 2 or c.keywords or not (isinstance(c.args[1], ast.List) and not c.args[1].elts) \
+                    or not (isinstance(c.func.value, ast.Attribute) and isinstance(c.func.value.value, ast.Name)):
+                raise Problem('setdefault outside the table: %s' % u(s))
+            ko, kt = self.term(c.args[0], env)
+            if kt != 'offer':
+                raise Problem('setdefault with a %s key' % kt)
+            field = 'self.' + c.func.value.attr
+            env = dict(env)
+            cur = A('media_lookup', [do, ko])
+            env[field] = (A('media_store', [do, ko, cur]), 'media')
+            env[tg.id] = (cur, LIST('entry'))
+            self.aliases = dict(self.aliases)
+            self.aliases[tg.id] = (field, ko)
             return env
         if isinstance(tg, ast.Attribute) and isinstance(tg.value, ast.Name) and tg.value.id in env \
                 and env[tg.value.id][1] == 'selfinit':
@@ -723,12 +794,37 @@ class FnTranslator:
         if old is not None and old[1].startswith('opt:') and old[1][4:] == ty and old[1] in self.optvars.get(tg.id, ()):
             obj, ty = A('Some', [obj]), OPT(ty)
         env[tg.id] = (obj, ty)
+        self.origin = dict(self.origin)
+        self.origin[tg.id] = render(obj, 0) if isinstance(obj, Term) else None
         return env
 
+    origin = {}
     optvars = {}
+    aliases = {}
+
+    def as_entry(self, pair, whole):
+        """(order, view, phash) tuples are the model's entries"""
+        obj, ty = pair
+        if ty == TUPLE and [t for _, t in obj] == ['Z', 'reg', 'text']:
+            return A('pair', [A('pair', [obj[0][0], obj[1][0]]), obj[2][0]]), 'entry'
+        if ty == TUPLE:
+            raise Problem('tuple outside the table: %s' % u(whole))
+        return obj, ty
+
+    def alias_write(self, env, name, newterm):
+        """a mutation of a local that aliases d[k] of a dict field of self is a mutation of that field"""
+        field, ko = self.aliases[name]
+        env = dict(env)
+        env[name] = (newterm, env[name][1])
+        env[field] = (A('media_store', [env[field][0], ko, newterm]), env[field][1])
+        return env
 
     def expr_stmt(self, s, env):
         c = s.value
+        if self.spec.get('mutself') and isinstance(c, ast.Call) and isinstance(c.func, ast.Attribute):
+            got = self.mut_stmt(c, env, s)
+            if got is not None:
+                return got
         if not (isinstance(c, ast.Call) and isinstance(c.func, ast.Attribute) and isinstance(c.func.value, ast.Name)
                 and not c.keywords and len(c.args) == 1):
             raise Problem('expression statement outside the subset: %s' % u(s))
@@ -779,9 +875,55 @@ class FnTranslator:
             raise Problem('method outside the table: %s' % u(s))
         return env
 
+    def mut_stmt(self, c, env, s):
+        """append / sort on a list field of self or on an alias of a dict entry of self; add on a set of offers"""
+        recv, meth = c.func.value, c.func.attr
+        if isinstance(recv, ast.Attribute) and isinstance(recv.value, ast.Name) \
+                and env.get(recv.value.id, (None, ''))[1] == 'mutself' and 'self.' + recv.attr in env:
+            key, alias = 'self.' + recv.attr, None
+        elif isinstance(recv, ast.Name) and recv.id in self.aliases and recv.id in env:
+            key, alias = recv.id, recv.id
+        elif isinstance(recv, ast.Name) and env.get(recv.id, (None, ''))[1] == 'offerset' and meth == 'add' \
+                and len(c.args) == 1 and not c.keywords:
+            ao, at = self.term(c.args[0], env)
+            if at != 'offer':
+                raise Problem('adding a %s to a set of offers' % at)
+            env = dict(env)
+            env[recv.id] = (A('offerset_add', [ao, env[recv.id][0]]), 'offerset')
+            return env
+        else:
+            return None
+        cur, ty = env[key]
+        if ty != LIST('entry'):
+            return None
+        if meth == 'append' and len(c.args) == 1 and not c.keywords:
+            vo, vt = self.as_entry(self.expr(c.args[0], env), s)
+            if vt != 'entry':
+                raise Problem('appending a %s to a list of entries' % vt)
+            new = A('app', [cur, A('cons', [vo, K('nil')])])
+        elif meth == 'sort' and not c.args and len(c.keywords) == 1 and c.keywords[0].arg == 'key' \
+                and u(c.keywords[0].value) == 'operator.itemgetter(0)':
+            new = A('isort', [K('entry_leb'), cur])      # list.sort is stable; the key is the order of the entry
+        else:
+            raise Problem('method outside the table: %s' % u(s))
+        if alias is not None:
+            return self.alias_write(env, alias, new)
+        env = dict(env)
+        env[key] = (new, ty)
+        return env
+
     def for_loop(self, s, env, k_rest):
         if s.orelse:
-            raise Problem('for .. else')
+            # for .. else: the else block runs when the loop ends without `break`; with no break in the body it is simply
+            # what follows the loop
+            for st in s.body:
+                for n in ast.walk(st):
+                    if isinstance(n, ast.Break):
+                        raise Problem('for .. else with a break in the body')
+            orelse, k_after = list(s.orelse), k_rest
+
+            def k_rest(env2, orelse=orelse, k_after=k_after):
+                return self.block(orelse, env2, k_after, None)
         it, tg, use_index, iname = s.iter, s.target, False, None
         if isinstance(it, ast.Call) and isinstance(it.func, ast.Name) and it.func.id == 'enumerate' and len(it.args) == 1 \
                 and not it.keywords and isinstance(tg, ast.Tuple) and len(tg.elts) == 2 and isinstance(tg.elts[0], ast.Name):
@@ -847,6 +989,9 @@ class FnTranslator:
             env_head[nm] = (V(b), ty)
 
         def cur(env2):
+            for k2, v2 in env2.items():
+                if k2.startswith('self.') and (k2 not in env_head or env_head[k2][0] is not v2[0]):
+                    raise Problem('a field of self is modified inside a loop iteration that goes on (%s)' % k2)
             out = []
             for ent in carried:
                 nm, b, ty = ent
@@ -983,6 +1128,12 @@ class FnTranslator:
             if len(n.ops) != 1:
                 raise Problem('chained comparison: %s' % u(n))
             return self.compare(n.ops[0], n.left, n.comparators[0], env, n), 'bool'
+        if isinstance(n, ast.Attribute) and isinstance(n.value, ast.Name) and n.value.id in env \
+                and env[n.value.id][1] == 'mutself':
+            got = env.get('self.' + n.attr)
+            if got is None:
+                raise Problem('attribute of self outside the table: %s' % u(n))
+            return got
         if isinstance(n, ast.Attribute):
             oobj, oty = self.expr(n.value, env)
             if oty in self.spec.get('selfattrs', {}) and n.attr in self.spec['selfattrs'][oty]:
@@ -1097,6 +1248,12 @@ class FnTranslator:
                 and isinstance(n.left.value, str):
             args = list(n.right.elts) if isinstance(n.right, ast.Tuple) else [n.right]
             return self.template(n.left.value, r'%[sr]', n, args, env)
+        if isinstance(n, ast.BinOp) and isinstance(n.op, ast.Add) and isinstance(n.right, ast.Attribute) \
+                and isinstance(n.right.value, ast.Name) and env.get(n.right.value.id, (None, ''))[1] == 'parsed':
+            x = n.right.value.id
+            if u(n) != "%s.type + '/' + %s.subtype" % (x, x):
+                raise Problem('expression over a parsed offer outside the table: %s' % u(n))
+            return A('o_base', [env[x][0]]), 'text'      # type/subtype of the offer (oracle field)
         if isinstance(n, ast.BinOp) and isinstance(n.op, ast.Add):
             (lo, lt), (ro, rt) = self.term(n.left, env), self.term(n.right, env)
             if lt == 'text' and rt == 'text':
@@ -1217,6 +1374,21 @@ class FnTranslator:
     def call(self, n, env):
         f = n.func
         args = n.args
+        if isinstance(f, ast.Attribute) and u(f) == 'Accept.parse_offer' and 'Accept' not in env and len(args) == 1 \
+                and not n.keywords:
+            ao, at = self.expr(args[0], env)
+            if at != 'offerv':
+                raise Problem('Accept.parse_offer of a %s' % at)
+            return ao, 'parsed'                       # WebOb (oracle): the model's offer record carries the parsed fields
+        if isinstance(f, ast.Name) and f.id in env and env[f.id][1] == 'fn_foi':
+            if len(args) != 2 or n.keywords:
+                raise Problem('find_order_index(..): %s' % u(n))
+            (ao, at), (do, dt) = self.term(args[0], env), self.term(args[1], env)
+            if at == 'offerv':
+                ao, at = A('o_full', [ao]), 'text'    # the offer as given (its normalised text)
+            if at != 'text' or dt != 'Z':
+                raise Problem('find_order_index of (%s, %s)' % (at, dt))
+            return A('gen_find_order_index', [env['order'][0], ao, do]), 'Z'
         # ---- calls of values
         if isinstance(f, ast.Name) and f.id in env:
             obj, ty = env[f.id]
@@ -1293,7 +1465,7 @@ class FnTranslator:
 
 GLOBALS = {
     '_marker': (None, 'marker'),
-    'MAX_ORDER': (K('max_order'), 'Z'),
+    'MAX_ORDER': (K('max_order'), 'Z'), 'DEFAULT_PHASH': (K('default_phash'), 'text'),
     'IView': (K('IView'), 'vtype'), 'ISecuredView': (K('ISecuredView'), 'vtype'), 'IMultiView': (K('IMultiView'), 'vtype'),
 }
 
@@ -1392,7 +1564,19 @@ def _m_hexdigest(tr, n, oobj, env):          # sha256 modelled as injective: the
     return oobj, 'text'
 
 
+def _m_options_get(tr, n, oobj, env):       # info.options.get(name[, None]): the option add_view was given
+    a = n.args[0].value if n.args and isinstance(n.args[0], ast.Constant) else None
+    if n.keywords or len(n.args) not in (1, 2) or (len(n.args) == 2 and u(n.args[1]) != 'None'):
+        raise Problem('options.get(..): %s' % u(n))
+    if a == 'accept':
+        return A('r_accept', [oobj]), OPT('offer')
+    if a in ('attr', 'permission'):
+        return None, ERASED                     # not read by the lookup (permission: property C05)
+    raise Problem('option outside the table: %s' % u(n))
+
+
 METHODS = {
+    ('options', 'get'): _m_options_get,
     ('sorter', 'sorted'): _m_sorted,
     ('selfnot', 'phash'): _m_self_phash,
     ('selfnot', '_notted_text'): _m_notted_text,
@@ -1516,6 +1700,64 @@ def _c_filter(tr, n, env):                   # filter(None, l): the truthy (= no
     return A('filter', [K('nonempty'), oo]), LIST('text')
 
 
+def _c_list(tr, n, env):                     # list(l): a copy (values are immutable in the model)
+    oo, ot = tr.expr(n.args[0], env)
+    if len(n.args) != 1 or n.keywords or not ot.replace('own:', '').startswith('list:'):
+        raise Problem('list(..) outside the table: %s' % u(n))
+    return oo, ot.replace('own:', '')
+
+
+def _c_set(tr, n, env):                      # set(self.accepts): the offers without repetition (ASSUMPTIONS: iteration order
+    oo, ot = tr.expr(n.args[0], env)         # is irrelevant when the sort keys are distinct); kept in list order
+    if len(n.args) != 1 or n.keywords or ot != LIST('offer'):
+        raise Problem('set(..) outside the table: %s' % u(n))
+    return oo, 'offerset'
+
+
+def _c_sort_accept_offers(tr, n, env):       # config.predicates.sort_accept_offers (pinned): the model's function
+    if len(n.args) != 2 or n.keywords:
+        raise Problem('sort_accept_offers(..): %s' % u(n))
+    (oo, ot), (ro, rt) = tr.expr(n.args[0], env), tr.expr(n.args[1], env)
+    if ot not in ('offerset', LIST('offer')) or rt != OPT(LIST('text')):
+        raise Problem('sort_accept_offers of (%s, %s)' % (ot, rt))
+    return A('gen_sort_accept_offers', [oo, A('opt_list_get', [ro])]), LIST('offer')
+
+
+def _c_next(tr, n, env):                     # next((i for i, x in enumerate(L) if x == v), default): first index of v in L
+    g = n.args[0] if len(n.args) == 2 and not n.keywords else None
+    if not isinstance(g, ast.GeneratorExp) or len(g.generators) != 1:
+        raise Problem('next(..) outside the table: %s' % u(n))
+    c = g.generators[0]
+    it = c.iter
+    if not (isinstance(it, ast.Call) and isinstance(it.func, ast.Name) and it.func.id == 'enumerate' and len(it.args) == 1
+            and isinstance(c.target, ast.Tuple) and len(c.target.elts) == 2 and all(isinstance(e, ast.Name) for e in c.target.elts)
+            and isinstance(g.elt, ast.Name) and g.elt.id == c.target.elts[0].id and len(c.ifs) == 1
+            and isinstance(c.ifs[0], ast.Compare) and len(c.ifs[0].ops) == 1 and isinstance(c.ifs[0].ops[0], ast.Eq)):
+        raise Problem('next(..) outside the table: %s' % u(n))
+    xname = c.target.elts[1].id
+    l, r = c.ifs[0].left, c.ifs[0].comparators[0]
+    other = r if (isinstance(l, ast.Name) and l.id == xname) else l if (isinstance(r, ast.Name) and r.id == xname) else None
+    if other is None or any(isinstance(m, ast.Name) and m.id in (xname, g.elt.id) for m in ast.walk(other)):
+        raise Problem('next(..) outside the table: %s' % u(n))
+    (lo, lt), (vo, vt), (do, dt) = tr.expr(it.args[0], env), tr.term(other, env), tr.term(n.args[1], env)
+    if lt != LIST('text') or vt != 'text' or dt != 'Z':
+        raise Problem('next(..) over (%s, %s, %s)' % (lt, vt, dt))
+    b = tr.fresh('ix')
+    return MOpt(A('index_of', [vo, lo, K('0%Z')]), do, b, V(b)), 'Z'
+
+
+def _c_sorted(tr, n, env):                   # sorted(l, key=f): stable, ascending by the key tuples (lexicographic)
+    if len(n.args) != 1 or [k.arg for k in n.keywords] != ['key'] or not isinstance(n.keywords[0].value, ast.Name) \
+            or n.keywords[0].value.id != 'offer_sort_key' or 'offer_sort_key' not in tr.nested:
+        raise Problem('sorted(..) outside the table: %s' % u(n))
+    lo, lt = tr.expr(n.args[0], env)
+    if lt != LIST('offer') or 'order' not in env or 'max_weight' not in env:
+        raise Problem('sorted(..) of a %s' % lt)
+    o, w = paren(env['order'][0], 0), paren(env['max_weight'][0], 0)
+    return A('isort', [K('(fun a b : offer => key_leb (gen_offer_sort_key %s %s a) (gen_offer_sort_key %s %s b))' % (o, w, o, w)),
+                       lo]), LIST('offer')
+
+
 def _c_erased(tr, n, env):
     return None, ERASED
 
@@ -1559,7 +1801,7 @@ def _c_rpt(tr, n, env):                      # traversal.resource_path_tuple (pi
 CALLS = {'find_interface': _c_find_interface, 'resource_path_tuple': _c_rpt, 'sha256': _c_sha256, 'PredicateInfo': _c_erased, 'Notted': _c_notted, 'bytes_': _c_bytes,
          'isinstance': _c_isinstance, 'hasattr': _c_hasattr, 'getattr': _c_getattr, '_find_views': _c_find_views, 'all': _c_all, 'bool': _c_bool,
          'len': _c_len, 'hash': _c_hash, 'as_sorted_tuple': _c_as_sorted_tuple, 'tuple': _c_tuple,
-         'filter': _c_filter}
+         'filter': _c_filter, 'list': _c_list, 'set': _c_set, 'sort_accept_offers': _c_sort_accept_offers, 'next': _c_next, 'sorted': _c_sorted}
 
 
 # ------------------------------------------------------------------ the translated functions
@@ -1620,6 +1862,20 @@ FUNCS = [
          ret_nested=lambda name: {'predicate_wrapper': Lam('rq', 'request', A('gen_predicate_wrapper', [RQ, V('v')]))}[name]),
     dict(file='pyramid/config/views.py', qual='MultiView.get_views', gen='gen_get_views', sig='(m : mview) (rq : request) : list entry',
          ret=LIST('entry'), params=[(V('m'), 'mv'), REQP], ret_conv=conv_id(LIST('entry'))),
+    dict(file='pyramid/config/views.py', qual='attr_wrapped_view', gen='gen_attr_wrapped', sig='(v : reg) : bool', ret='bool',
+         params=[(V('v'), 'body'), (V('v'), 'info')],
+         ret_conv=lambda obj, t: K('false') if t == 'body' else None,      # the view itself: no attribute exists on it
+         ret_nested=lambda name: {'attr_view': K('true')}[name],            # the wrapper, carrying the three attributes
+         nested_attrs={'__accept__': 'r_accept v', '__order__': 'r_order v', '__phash__': 'r_phash v'}),
+    dict(file='pyramid/config/views.py', qual='MultiView.add', gen='gen_mv_add',
+         sig='(m : mview) (v : reg) (order : Z) (phash : text) (accept : option offer) (ao : option (list text)) : mview',
+         ret='mview', mutself=True, never_none=('phash',), sorter_params=True, listcomp_ok=True,
+         params=[(V('m'), 'mutself'), (V('v'), 'reg'), (V('order'), 'Z'), (V('phash'), 'text'), (V('accept'), OPT('offer')),
+                 (V('ao'), OPT(LIST('text')))],
+         defaults={3: 'None', 4: 'None', 5: 'None'}, ret_conv=lambda obj, t: None,
+         init_env={'self.views': (A('mv_views', [V('m')]), LIST('entry')), 'self.media_views': (A('mv_media', [V('m')]), 'media'),
+                   'self.accepts': (A('mv_accepts', [V('m')]), LIST('offer'))},
+         end_fn=lambda env: A('mkMV', [env['self.views'][0], env['self.media_views'][0], env['self.accepts'][0]])),
     dict(file='pyramid/config/views.py', qual='MultiView.match', gen='gen_mv_match', sig='(m : mview) (rq : request) : option reg',
          ret=OPT('reg'), params=[(V('m'), 'mv'), CTXP, REQP], ret_conv=conv_opt('reg'), **{'raise': PM}),
     dict(file='pyramid/config/views.py', qual='MultiView.__call__', gen='gen_mv_call', sig='(m : mview) (rq : request) : option N',
@@ -1759,7 +2015,28 @@ Definition gen_factory (name : text) (v : pval) : option pred :=
 '''),
 ]
 
-FUNCS = _TEXT_FUNCS + _INIT_FUNCS + _PRED_FUNCS + [dict(glue='''(* GLUE (table): calling a predicate object runs the __call__ of its class (the constructor of the model's [pred]);
+def _conv_key2(obj, t):
+    if t == TUPLE and [x[1] for x in obj] == ['Z', 'Z']:
+        return A('pair', [obj[0][0], obj[1][0]])
+    return None
+
+
+_CP = 'pyramid/config/predicates.py'
+_SORT_FUNCS = [
+    dict(file=_CP, qual='sort_accept_offers.find_order_index', gen='gen_find_order_index',
+         sig='(order : list text) (value : text) (default : Z) : Z', ret='Z', params=[(V('value'), 'text'), (V('default'), 'Z')],
+         defaults={1: 'None'}, closure=lambda outer: {'order': (V('order'), LIST('text'))}, ret_conv=conv_id('Z')),
+    dict(file=_CP, qual='sort_accept_offers.offer_sort_key', gen='gen_offer_sort_key',
+         sig='(order : list text) (maxw : Z) (o : offer) : Z * Z', ret='key2', params=[(V('o'), 'offerv')], strings=True,
+         closure=lambda outer: {'order': (V('order'), LIST('text')), 'max_weight': (V('maxw'), 'Z'),
+                                'find_order_index': (None, 'fn_foi')}, ret_conv=_conv_key2),
+    dict(file=_CP, qual='sort_accept_offers', gen='gen_sort_accept_offers',
+         sig='(offers : list offer) (order : list text) : list offer', ret=LIST('offer'),
+         params=[(V('offers'), LIST('offer')), (V('order'), LIST('text'))], defaults={1: 'None'},
+         defaulted={LIST('text'): '[]'}, ret_conv=conv_id(LIST('offer'))),
+]
+
+FUNCS = _TEXT_FUNCS + _INIT_FUNCS + _SORT_FUNCS + _PRED_FUNCS + [dict(glue='''(* GLUE (table): calling a predicate object runs the __call__ of its class (the constructor of the model's [pred]);
    third-party predicates are truth tables (nothing to translate); the inner call of Notted stays eval_pred *)
 Definition gen_eval_pred (rq : request) (p : pred) : bool :=
   match p with
@@ -1806,6 +2083,14 @@ Definition factory_of (name : text) : text := name.
 Definition find_iface (rq : request) (i : N) : option (text * list N) := find (fun loc => memN i (snd loc)) (q_lineage rq).
 Definition kw_del (k : text) (kw : kwargs) : kwargs := filter (fun e => negb (text_eqb (fst e) k)) kw.
 Definition opt_text_get (o : option text) : text := match o with Some t => t | None => [] end.
+Definition media_lookup (md : list (text * list entry)) (o : offer) : list entry :=
+  match assoc (o_full o) md with Some s => s | None => [] end.
+Definition media_store (md : list (text * list entry)) (o : offer) (v : list entry) : list (text * list entry) :=
+  media_set (o_full o) v md.
+Fixpoint list_set {A} (i : Z) (x : A) (l : list A) : list A :=
+  match l with [] => [] | y :: r => if Z.eqb i 0 then x :: r else y :: list_set (i - 1)%Z x r end.
+Definition offerset_add (a : offer) (l : list offer) : list offer := if offer_mem a l then l else l ++ [a].
+Definition opt_list_get {A} (o : option (list A)) : list A := match o with Some l => l | None => [] end.
 Fixpoint starts_with (pre s : text) : bool :=
   match pre, s with
   | [], _ => true
